@@ -268,6 +268,21 @@ def _length_sweep(tier, rng):
             tail = bytes(rng.randrange(256) for _ in range(rng.choice([0, 0, 1, 3])))
             for e in ("parse_tls_raw_record", "parse_tls_encrypted", "parse_tls_plaintext"):
                 out.append(Case("%s %s" % (e, (hdr + tail).hex()), "", "lengths"))
+    # above the cap with the whole declared payload (and more) present: still TooLarge, "whatever follows"
+    CAP = 16384 + 256
+    for L in (CAP + 1, CAP + 2, 18432, 18433, 32768, 65535):
+        for avail in (L - 1, L, L + 1, L + 9):
+            ct = rng.choice([20, 21, 22, 23, 24])
+            v = rng.choice(vers)
+            payload = (bytes([1]) * avail) if ct == 20 else bytes(rng.randrange(256) for _ in range(avail))
+            for e in ("parse_tls_raw_record", "parse_tls_encrypted", "parse_tls_plaintext"):
+                out.append(Case("%s %s" % (e, (bytes([ct, v >> 8, v & 255, L >> 8, L & 255]) + payload).hex()), "(err TooLarge @5+%d)" % avail, "lengths"))
+    # at the cap, whole payload present: framed
+    for e, nm in (("parse_tls_raw_record", "Raw"), ("parse_tls_encrypted", "Encrypted")):
+        for L in (CAP - 1, CAP):
+            pl = bytes(rng.randrange(256) for _ in range(L))
+            out.append(Case("%s %s" % (e, (bytes([23, 3, 3, L >> 8, L & 255]) + pl + b"\x99").hex()), "(ok @%d+1 (%s (Hdr 23 771 %d) #5:%s))" % (5 + L, nm, L, pl.hex()), "lengths"))
+            out.append(Case("%s %s" % (e, (bytes([23, 3, 3, L >> 8, L & 255]) + pl[:-2]).hex()), "(inc 2)", "lengths"))
     return out
 
 ALL_PARSE = sorted(set(["parse_tls_record_header", "parse_tls_plaintext", "parse_tls_encrypted", "parse_tls_raw_record", "tls_parser", "tls_parser_many",
@@ -556,6 +571,18 @@ def direct_oracle(pid, case, impl_out):
                 # prefix of the payload, each within its own 24-bit length
                 r = _handshake_framing(b[5:5+L], "(ok @_+0 %s)" % m.group(2), exact=False)
                 if r: return r
+    if pid in ("C14", "C06") and case.line.startswith("parse_ct_signed_certificate_timestamp_list "):
+        import vlib
+        e, a, hx = vlib.split_line(case.line)
+        if not re.search(r"[^0-9a-fA-F]", hx):
+            r = _sct_oracle(e, bytes.fromhex(hx) if hx != "-" else b"", impl_out)
+            if r: return r
+    if pid == "C13" and case.line.startswith("parse_content_and_signature") and impl_out and impl_out.startswith("(ok"):
+        # the signature form is selected by the caller's flag alone: with ext the hash/signature pair is read,
+        # without it the legacy length-only form
+        flag = case.line.split(" ")[1]
+        if flag == "0" and "(Signed None " not in impl_out: return "ext = false: the signature must be read in the legacy (length-only) form"
+        if flag == "1" and "(Signed (Some " not in impl_out: return "ext = true: the signature must be read with the hash/signature algorithm pair"
     if pid in ("C06", "C01") and not case.line.startswith(("defrag ", "@", "states ")) and impl_out and impl_out.startswith("(ok"):
         import vlib
         e, a, hx = vlib.split_line(case.line)
@@ -757,9 +784,96 @@ def _record_extremes(rng, entries=("parse_tls_plaintext", "parse_tls_record_with
         hb = bytes([1, pl >> 8, pl & 255]) + blob[:L - 3]
         both(24, hb, "(Heartbeat 1 %d #%s:%s)" % (pl, "8" if pl else "_", blob[:pl].hex()), "(Heartbeat 1 %d #%s:%s)" % (pl, "3" if pl else "_", blob[:pl].hex()),
              rem2=("@_+0" if pl == L - 3 else "@%d+%d" % (3 + pl, L - 3 - pl)))   # two-step parsing returns the padding as remainder
+    if "tls_parser_many" in entries:
+        # as many records as fit: empty application-data records (5 bytes), one-byte CCS records, then a short tail
+        for n in (2, 255, 256, 1024, 1025, 2620, 2621, 4096, 6000, 13107):
+            unit, one = rng.choice([(bytes([23, 3, 3, 0, 0]), "(Plaintext (Hdr 23 771 0) [(ApplicationData #_:)])"),
+                                    (bytes([20, 3, 3, 0, 1, 1]), "(Plaintext (Hdr 20 771 1) [(ChangeCipherSpec)])")])
+            for tail in (b"", bytes([22, 3, 3, 0])):
+                out.append(Case("tls_parser_many %s" % (unit * n + tail).hex(),
+                                "(ok %s [%s])" % ("@_+0" if not tail else "@%d+%d" % (len(unit) * n, len(tail)), " ".join([one] * n)), "stress" if n > 4096 else "extreme"))
+        # a trailing empty record is a record like any other
+        out.append(Case("tls_parser_many %s" % (bytes([22, 3, 3, 0, 4, 14, 0, 0, 0]) + bytes([23, 3, 3, 0, 0])).hex(),
+                        "(ok @_+0 [(Plaintext (Hdr 22 771 4) [(Handshake (ServerDone #_:))]) (Plaintext (Hdr 23 771 0) [(ApplicationData #_:)])])", "extreme"))
     if "parse_tls_plaintext" in entries:
         for ct in (20, 21, 22, 23, 24, 99):
             out.append(Case("parse_tls_plaintext %s" % (bytes([ct, 3, 3, (CAP + 1) >> 8, (CAP + 1) & 255]) + bytes(CAP + 1)).hex(), "(err TooLarge @5+%d)" % (CAP + 1), "extreme"))
+    return out
+
+def _sct_reference(b):
+    """RFC 6962 section 3.3 SignedCertificateTimestampList, decoded independently of model and implementation:
+    returns (items, all_well_formed) as canonical strings (modulo offsets), or None when the declared list length
+    exceeds the input"""
+    if len(b) < 2: return None
+    L = int.from_bytes(b[:2], "big")
+    if len(b) - 2 < L: return None
+    lst, pos, items = b[2:2 + L], 0, []
+    def sl(x): return "#:" + x.hex() if x else "#:"
+    while pos < L:
+        if L - pos < 2: return items, False
+        n = int.from_bytes(lst[pos:pos + 2], "big")
+        if pos + 2 + n > L: return items, False          # the entry's declared length exceeds the enclosing list
+        c = lst[pos + 2:pos + 2 + n]
+        if len(c) < 43: return items, False
+        ver, logid, ts, xl = c[0], c[1:33], int.from_bytes(c[33:41], "big"), int.from_bytes(c[41:43], "big")
+        if len(c) < 43 + xl + 4: return items, False
+        ext = c[43:43 + xl]; q = 43 + xl
+        h, sg, sl_ = c[q], c[q + 1], int.from_bytes(c[q + 2:q + 4], "big")
+        if len(c) < q + 4 + sl_: return items, False
+        sig = c[q + 4:q + 4 + sl_]
+        items.append("(SCT %d %s %d %s (Signed (Some ( %d %d)) %s))" % (ver, sl(logid), ts, sl(ext), h, sg, sl(sig)))
+        pos += 2 + n
+    return items, True
+
+def _sct_oracle(e, b, impl_out):
+    import vlib
+    if e != "parse_ct_signed_certificate_timestamp_list": return None
+    ref = _sct_reference(b)
+    if ref is None:
+        return "a list whose declared length exceeds the input must not yield a value" if (impl_out or "").startswith("(ok") else None
+    items, ok = ref
+    L = int.from_bytes(b[:2], "big")
+    rest = len(b) - 2 - L
+    want = "(ok @+%d [%s])" % (rest, " ".join(items))
+    got = vlib.strip_offsets(impl_out or "")
+    got = re.sub(r"#:(?=[ )])", "#:", got)
+    if got != want:
+        return ("RFC 6962 decoding of the list gives %s%s" % (want[:400], "" if ok else " (decoding stops at the first entry that is malformed or exceeds the list)"))
+    return None
+
+def _dtls_extremes(rng, many=False):
+    """DTLS records at the extremes: message counts up to the cap, lengths at and around 2^14 and the cap (2^14+256),
+    above the cap with the whole payload present, datagrams of thousands of minimal records"""
+    from vlib import Case
+    out = []
+    CAP = 16384 + 256
+    def hdr(ct, n, ver=0xfefd, ep=1, seq=2): return bytes([ct, ver >> 8, ver & 255, ep >> 8, ep & 255]) + seq.to_bytes(6, "big") + bytes([n >> 8, n & 255])
+    def H(ct, n, ver=0xfefd, ep=1, seq=2): return "(DHdr %d %d %d %d %d)" % (ct, ver, ep, seq, n)
+    if not many:
+        for n in (1, 255, 256, 1024, 1025, 4096, 8192, 16384, 16385, CAP):
+            m = " ".join(["(ChangeCipherSpec)"] * n)
+            out.append(Case("parse_dtls_plaintext_record %s" % (hdr(20, n) + b"\x01" * n).hex(), "(ok @_+0 (DPlaintext %s [%s]))" % (H(20, n), m), "extreme" if n <= 4096 else "stress"))
+        for L in (16383, 16384, 16385, 16500, CAP - 1, CAP):
+            # one ClientKeyExchange filling the record exactly (12-byte handshake header)
+            bl = L - 12
+            body = bytes(rng.randrange(256) for _ in range(bl))
+            msg = bytes([16]) + bl.to_bytes(3, "big") + b"\x00\x05" + b"\x00\x00\x00" + bl.to_bytes(3, "big") + body
+            out.append(Case("parse_dtls_plaintext_record %s" % (hdr(22, L) + msg).hex(),
+                            "(ok @_+0 (DPlaintext %s [(Handshake 16 %d 5 0 %d (ClientKeyExchange (Unknown #25:%s)) not_fragment)]))" % (H(22, L), bl, bl, body.hex()), "extreme"))
+            # truncated by one byte: Incomplete with the exact count
+            out.append(Case("parse_dtls_plaintext_record %s" % (hdr(22, L) + msg[:-1]).hex(), "(inc 1)", "extreme"))
+            out.append(Case("parse_dtls_plaintext_record %s" % hdr(22, L).hex(), "(inc %d)" % L, "extreme"))
+        for L in (CAP + 1, CAP + 2, 32768, 65535):
+            for extra in (0, 1, L, L + 3):
+                out.append(Case("parse_dtls_plaintext_record %s" % (hdr(rng.choice([20, 21, 22, 23]), L) + bytes(extra)).hex(), "(err TooLarge @13+%d)" % extra, "extreme"))
+    else:
+        for n in (2, 255, 1024, 2620, 2621, 4000, 4500):
+            k = rng.choice([0, 1])
+            unit = (hdr(20, 1) + b"\x01") if k == 0 else (hdr(21, 2) + b"\x01\x00")
+            one = "(DPlaintext %s [%s])" % ((H(20, 1), "(ChangeCipherSpec)") if k == 0 else (H(21, 2), "(Alert 1 0)"))
+            for tail in (b"", hdr(22, 9)):
+                out.append(Case("parse_dtls_plaintext_records %s" % (unit * n + tail).hex(),
+                                "(ok %s [%s])" % ("@_+0" if not tail else "@%d+%d" % (len(unit) * n, len(tail)), " ".join([one] * n)), "extreme"))
     return out
 
 def _kx_sweeps(tier, rng):
@@ -1036,9 +1150,10 @@ def _stress_cases(tier, rng):
 def extra_cases(pid, tier, seed, rng):
     if pid == "C15": return _hello_cases(tier, seed, rng)
     if pid == "C03": return _record_extremes(rng)
-    if pid == "C16": return _record_extremes(rng, entries=("tls_parser_many",))
+    if pid == "C16": return _record_extremes(rng, entries=("tls_parser_many",)) + _dtls_extremes(rng, many=True)
+    if pid == "C10": return _dtls_extremes(rng) + _dtls_extremes(rng, many=True)
     if pid == "C18": return _nt_cases(tier, rng) + _cipher_cases(tier, rng) + _state_cells(tier, rng) + _defrag_histories(tier, seed, rng)[:1500]
-    if pid == "C01": return _stress_cases(tier, rng) + _defrag_histories(tier, seed, rng) + _length_sweep("quick", rng) + _record_extremes(rng)
+    if pid == "C01": return _stress_cases(tier, rng) + _defrag_histories(tier, seed, rng) + _length_sweep("quick", rng) + _record_extremes(rng) + _dtls_extremes(rng)
     if pid == "C09": return _ser_cases(tier, rng)
     if pid == "C05": return _ext_type_sweep(tier, rng)
     if pid == "C13": return _kx_sweeps(tier, rng)
